@@ -1,5 +1,7 @@
 package schema
 
+import "sync"
+
 type TypeSystem struct {
 	// namedTypes is the set of all named types in this universe.
 	// The map's key is the value's Name() property and must be unique.
@@ -15,4 +17,22 @@ type TypeSystem struct {
 	// names are the same set of names stored in namedTypes,
 	// but in insertion order.
 	names []TypeName
+
+	// mu guards namedTypes and names: types resolve the types they refer to
+	// lazily, by name, every time they are asked (StructField.Type and friends),
+	// so a type system that is still growing -- like the one bindnode keeps for
+	// inferred schemas -- is read by the users of its finished types while
+	// Accumulate writes to it.
+	// It is a pointer (set by Init) because several methods have value receivers.
+	mu *sync.RWMutex
+}
+
+// typeByName is the lookup used by the types of this universe to resolve the
+// types they refer to.
+func (ts *TypeSystem) typeByName(n TypeName) Type {
+	if ts.mu != nil {
+		ts.mu.RLock()
+		defer ts.mu.RUnlock()
+	}
+	return ts.namedTypes[n]
 }
